@@ -771,7 +771,7 @@ class SqwEngine(Engine):
         try:
             if scn["sink"] == "mem":
                 sink.seek(0)
-            with core.time_limit(30.0), sqw.Sqw.open(sink) as f:
+            with sqw.Sqw.open(sink) as f:
                 got = f.byteorder.value
                 hdr = f.file_header
                 names = list(f.data_block_names())
@@ -1331,8 +1331,7 @@ def _judge_reader(self, scn, ctx, fin, sink, dec):
             with sqw.Sqw.open(sink) as f:
                 for name in list(f.data_block_names()):
                     try:
-                        with core.time_limit(30.0):
-                            blocks[name] = f.read_data_block(name)
+                        blocks[name] = f.read_data_block(name)
                     except Exception as e:  # noqa: BLE001
                         bad("/".join(name), f"read_data_block raised {type(e).__name__}: {e}",
                             exc=type(e).__name__)
